@@ -261,6 +261,29 @@ Section Model.
   Definition wf_history (legacy : bool) (f : fs) (ops : list op) : bool :=
     mtime_tracks_content (exec legacy (start f) ops).
 
+  (* ---------- collision-freeness of the two digests on what a history touches ----------
+     BLAKE3 cannot be injective on all inputs; what the property needs is: no two of
+     the binaries in play share an identity digest, and no two (identity, source)
+     pairs in play share a result key. *)
+  Definition fs_bytes (f : fs) : list N :=
+    flat_map (fun pn => match snd pn with File b _ => [b] | Link _ => [] end) f.
+  Definition op_bytes (o : op) : list N := match o with Swap _ b _ => [b] | _ => [] end.
+  Definition op_srcs (o : op) : list N := match o with Compile _ s => [s] | _ => [] end.
+  Definition bytes_in_play (f : fs) (ops : list op) : list N := fs_bytes f ++ flat_map op_bytes ops.
+  Definition srcs_in_play (ops : list op) : list N := flat_map op_srcs ops.
+
+  Definition collision_free_in_play (f : fs) (ops : list op) : bool :=
+    let B := bytes_in_play f ops in
+    let S := srcs_in_play ops in
+    forallb (fun b1 => forallb (fun b2 =>
+      match detect b1, detect b2 with
+      | Some i1, Some i2 =>
+          implb (i1 =? i2) (b1 =? b2) &&
+          forallb (fun s1 => forallb (fun s2 =>
+            implb (H i1 s1 =? H i2 s2) ((i1 =? i2) && (s1 =? s2))) S) S
+      | _, _ => true
+      end) B) B.
+
   (* ---------- what the property demands of one served request ---------- *)
   Definition served (e : event) : option N :=
     match e_out e with OHit p => Some p | OMiss p => Some p | _ => None end.
